@@ -18,8 +18,8 @@ centres held in the containers the library itself produces (float64 ndarray from
 convert_objects_to_base_link, rows of one buffer, int arrays, lists, tuples), are scored several times in different
 orders (cd->pd->iou, iou->cd, swapped after direct, through DynamicObjectWithPerceptionResult, random sequences).
 Every value must equal the value of freshly built tuple-position objects AND the exact Fraction value of the property
-text, repeated/swapped evaluations must agree, and the objects' position / orientation / size must be bit-identical
-before and after.  The 2-D objects of the "roi" stream are likewise scored again and through the result object.
+text, and repeated/swapped evaluations must agree (whether the objects' position / orientation / size are bit-identical
+afterwards is recorded in the histogram only: it is not a clause of the statement).  The 2-D objects of the "roi" stream are likewise scored again and through the result object.
 """
 from __future__ import annotations
 
@@ -94,12 +94,19 @@ TRUSTED = [
 ]
 ASSUMPTIONS = [
     "3-D objects are BOUNDING_BOX shapes in BASE_LINK with yaw-only orientation (the ego is the origin)",
-    "plane distance is compared only when the choice of the two nearest GT corners is decided by a margin >= 1e-7 "
-    "or is reproduced exactly by the float distances (skipped and counted otherwise)",
-    "positive sizes for the property clauses (zero sizes only exercise the ZeroDivisionError correspondence)",
-    "purity stream: 'unchanged inputs' compares the VALUES of state.position / orientation / shape.size bitwise (container type and "
-    "dtype are not compared); for library-converted centres (float noise of the map->base_link conversion) the exact reference is the "
-    "un-moved pair with tolerance 1e-6, the freshly-built-object reference uses the converted values with 1e-9",
+    "plane distance: when the choice of the two nearest GT corners is decided by a margin >= 1e-7 the value is compared with the "
+    "model / the exact RMS of that side; on a tie (or a margin below 1e-7) the text leaves the side open: the RMS corner distance of "
+    "ANY tied choice of the two nearest corners (corresponding est/gt corners) is accepted, in compare and in the oracle alike",
+    "positive sizes for the property clauses; zero-size boxes / ROIs are outside the quantifier: values are compared with the model "
+    "only where both sides return a number, a raise (any class) or a rejecting constructor is no claim; such cases are counted as skipped",
+    "ROI centre: the library's public Roi.center is read; it must lie within half a pixel of the true centre offset + size/2 and move "
+    "with the ROI under a common shift, and the 2-D center distance must be the distance of those centres (the text fixes no rounding); "
+    "the model's floor convention is compared only while the library reports the same centres",
+    "purity stream: that scoring leaves its inputs bit-identical is NOT asserted (not in the statement; recorded in the histogram): a "
+    "modification that matters shows as a wrong repeated / swapped / later score; for library-converted centres (float noise of the "
+    "map->base_link conversion) the exact reference is the un-moved pair with tolerance 1e-6, the freshly-built-object reference uses "
+    "the converted values with 1e-9; int-array / list centres (outside the documented tuple-of-floats type) may be rejected by the library",
+    "exception classes are never compared (the statement names none): a scoring call either returns a number or raised",
 ]
 
 TOL = 1e-9
@@ -235,9 +242,10 @@ def mk2d(roi):
                            roi=tuple(int(v) for v in roi))
 
 
-def _val(cls, e, g):
+def _val(cls, e, g, **kw):
+    """one real scoring call (the ONLY calls whose exceptions are recorded as an outcome): float | None | {"err": class name}"""
     try:
-        v = cls(e, g).value
+        v = cls(e, g, **kw).value
         return None if v is None else float(v)
     except Exception as ex:  # noqa
         return {"err": type(ex).__name__}
@@ -254,105 +262,158 @@ def _fp_real(o):
     return [[float(p[0]), float(p[1])] for p in list(o.get_footprint().exterior.coords)[:-1]]
 
 
-def run_impl(case):
+def _raised(x):
+    """did the real scoring call raise?  (`_val` records the class name for the log; it is never compared: the property says
+    nothing about exception classes)"""
+    return isinstance(x, dict) and "err" in x
+
+
+def _float_nearest(o):
+    """indices of the two GT footprint corners the float distances rank nearest to the ego (histogram only)"""
     import numpy as np
+
+    fg = np.array(list(o.get_footprint().exterior.coords)[:-1])
+    d = np.linalg.norm(fg[:, :2], axis=1)
+    return sorted(int(i) for i in np.argsort(d)[:2])
+
+
+def _inter_real(a, b, how):
+    """shapely's intersection area of the two public footprints (external-contract cross-check of compare)"""
+    try:
+        return float(getattr(a, how)().intersection(getattr(b, how)()).area)
+    except Exception as ex:  # noqa
+        return {"err": type(ex).__name__}
+
+
+def _roi_center(o):
+    """the public `Roi.center` of a 2-D object as a pair of numbers; None when the attribute is not there in this form
+    (the observation is then dropped: histogram key `unobservable:Roi.center`)"""
+    c = getattr(getattr(o, "roi", None), "center", None)
+    try:
+        c = [float(c[0]), float(c[1])]
+    except Exception:  # noqa
+        return None
+    return c if len(c) == 2 and all(math.isfinite(v) for v in c) else None
+
+
+def _run_box(case):
+    import numpy as np  # noqa: F401
+    from perception_eval.evaluation.matching import object_matching as om
+
+    eb, gb = case["est"], case["gt"]
+    out = {}
+    e, g = mk3d(eb), mk3d(gb)
+    out["base"] = _scores3d(e, g)
+    out["swap"] = _scores3d(g, e, ("cd", "iou2d", "iou3d"))
+    out["self_e"] = _scores3d(e, mk3d(eb))
+    out["self_g"] = _scores3d(mk3d(gb), g)
+    out["base"]["inter"] = _inter_real(e, g, "get_footprint")
+    try:
+        out["base"]["float_nearest"] = _float_nearest(g)
+    except Exception:  # noqa  (histogram only)
+        pass
+    mv = {}
+    for tag, with_t in (("rot", False), ("rt", True)):
+        eb2, gb2 = move_box(eb, case["motion"], with_t), move_box(gb, case["motion"], with_t)
+        mv[tag] = {"est": eb2, "gt": gb2}
+        e2, g2 = mk3d(eb2), mk3d(gb2)
+        out[tag] = _scores3d(e2, g2)
+        out[tag]["inter"] = _inter_real(e2, g2, "get_footprint")
+    out["moved"] = mv
+    # ---- the same pair expressed in the MAP frame, ego pose = the motion, transform supplied
+    # (corner ranking of the plane distance must still be relative to the ego).  The set-up is harness code (its failure is
+    # an infrastructure error); only the four scoring calls are observed, each on its own.
+    from perception_eval.common.schema import FrameID
+    from perception_eval.common.transform import HomogeneousMatrix, TransformDict
+    from pyquaternion import Quaternion
+
+    a, b = case["motion"]["rot"]
+    n = math.hypot(a, b)
+    yaw = 2.0 * math.atan2(b / n, a / n)
+    e2m = HomogeneousMatrix(tuple(float(v) for v in case["motion"]["t"]), Quaternion(axis=[0, 0, 1], angle=yaw),
+                            FrameID.BASE_LINK, FrameID.MAP)
+    td = TransformDict([e2m])
+    from harness import builders as _B  # registry with a history (replaced ego pose), see builders.give_history
+
+    td = _B.maybe_history(td, e2m, ("c06", case["motion"]["t"], case["est"]["pos"]))
+    em, gm = mk3d(mv["rt"]["est"]), mk3d(mv["rt"]["gt"])
+    em.frame_id = gm.frame_id = FrameID.MAP
+    M = {"cd": om.CenterDistanceMatching, "pd": om.PlaneDistanceMatching, "iou2d": om.IOU2dMatching, "iou3d": om.IOU3dMatching}
+    out["mapframe"] = {kk: _val(cls, em, gm, transforms=td) for kk, cls in M.items()}
+    # ---- objects DERIVED from already-scored ones the way the library derives them (deepcopy, then the
+    # state is replaced: interpolation, frame conversion) must score like freshly built objects
+    from copy import deepcopy
+
+    fe, fg = mk3d(mv["rt"]["est"]), mk3d(mv["rt"]["gt"])
+    try:  # building the derived objects is harness code on top of `ObjectState` (positional, mutable): when that form is
+        # not there any more the observation is dropped, never reported
+        from perception_eval.common.object import ObjectState
+
+        de, dg = deepcopy(e), deepcopy(g)  # e, g were scored above
+        for d_, f_ in ((de, fe), (dg, fg)):
+            d_.state = ObjectState(f_.state.position, f_.state.orientation, d_.state.shape, d_.state.velocity)
+        de2 = deepcopy(e)
+        de2.state.position = fe.state.position
+        de2.state.orientation = fe.state.orientation
+    except Exception as ex:  # noqa
+        out["unobservable"] = ["derived-objects:" + type(ex).__name__]
+    else:
+        out["derived"] = _scores3d(de, dg)
+        out["derived_inplace"] = _scores3d(de2, dg)
+    return out
+
+
+def run_impl(case):
     from perception_eval.evaluation.matching import object_matching as om
 
     k = case["kind"]
     if k == "box":
-        eb, gb = case["est"], case["gt"]
-        out = {}
-        e, g = mk3d(eb), mk3d(gb)
-        out["base"] = _scores3d(e, g)
-        out["swap"] = _scores3d(g, e, ("cd", "iou2d", "iou3d"))
-        out["self_e"] = _scores3d(e, mk3d(eb))
-        out["self_g"] = _scores3d(mk3d(gb), g)
+        if pos_size(case["est"]) and pos_size(case["gt"]):
+            return _run_box(case)
+        # zero-size boxes are OUTSIDE the quantifier ("all pairs of boxes with positive size"): whatever the library does
+        # with them (ZeroDivisionError today, a guard returning 0.0, a rejecting constructor) is no claim of C06
         try:
-            out["base"]["inter"] = float(e.get_footprint().intersection(g.get_footprint()).area)
-            fg = np.array(list(g.get_footprint().exterior.coords)[:-1])
-            d = np.linalg.norm(fg[:, :2], axis=1)
-            out["base"]["float_nearest"] = sorted(int(i) for i in np.argsort(d)[:2])
+            out = _run_box(case)
         except Exception as ex:  # noqa
-            out["base"]["inter"] = {"err": type(ex).__name__}
-        mv = {}
-        for tag, with_t in (("rot", False), ("rt", True)):
-            eb2, gb2 = move_box(eb, case["motion"], with_t), move_box(gb, case["motion"], with_t)
-            mv[tag] = {"est": eb2, "gt": gb2}
-            e2, g2 = mk3d(eb2), mk3d(gb2)
-            out[tag] = _scores3d(e2, g2)
-            try:
-                out[tag]["inter"] = float(e2.get_footprint().intersection(g2.get_footprint()).area)
-                fg = np.array(list(g2.get_footprint().exterior.coords)[:-1])
-                d = np.linalg.norm(fg[:, :2], axis=1)
-                out[tag]["float_nearest"] = sorted(int(i) for i in np.argsort(d)[:2])
-            except Exception as ex:  # noqa
-                out[tag]["inter"] = {"err": type(ex).__name__}
-        out["moved"] = mv
-        # ---- the same pair expressed in the MAP frame, ego pose = the motion, transform supplied
-        # (corner ranking of the plane distance must still be relative to the ego)
-        try:
-            from perception_eval.common.schema import FrameID
-            from perception_eval.common.transform import HomogeneousMatrix, TransformDict
-            from pyquaternion import Quaternion
-
-            a, b = case["motion"]["rot"]
-            n = math.hypot(a, b)
-            yaw = 2.0 * math.atan2(b / n, a / n)
-            e2m = HomogeneousMatrix(tuple(float(v) for v in case["motion"]["t"]), Quaternion(axis=[0, 0, 1], angle=yaw),
-                                    FrameID.BASE_LINK, FrameID.MAP)
-            td = TransformDict([e2m])
-            from harness import builders as _B  # registry with a history (replaced ego pose), see builders.give_history
-
-            td = _B.maybe_history(td, e2m, ("c06", case["motion"]["t"], case["est"]["pos"]))
-            em, gm = mk3d(mv["rt"]["est"]), mk3d(mv["rt"]["gt"])
-            em.frame_id = gm.frame_id = FrameID.MAP
-            M = {"cd": om.CenterDistanceMatching, "pd": om.PlaneDistanceMatching, "iou2d": om.IOU2dMatching, "iou3d": om.IOU3dMatching}
-            out["mapframe"] = {kk: float(cls(em, gm, transforms=td).value) for kk, cls in M.items()}
-        except Exception as ex:  # noqa
-            out["mapframe"] = {"err": type(ex).__name__}
-        # ---- objects DERIVED from already-scored ones the way the library derives them (deepcopy, then the
-        # state is replaced: interpolation, frame conversion) must score like freshly built objects
-        try:
-            from copy import deepcopy
-
-            from perception_eval.common.object import ObjectState
-
-            fe, fg = mk3d(mv["rt"]["est"]), mk3d(mv["rt"]["gt"])
-            de, dg = deepcopy(e), deepcopy(g)  # e, g were scored above
-            for d_, f_ in ((de, fe), (dg, fg)):
-                d_.state = ObjectState(f_.state.position, f_.state.orientation, d_.state.shape, d_.state.velocity)
-            out["derived"] = _scores3d(de, dg)
-            de2 = deepcopy(e)
-            de2.state.position = fe.state.position
-            de2.state.orientation = fe.state.orientation
-            out["derived_inplace"] = _scores3d(de2, dg)
-        except Exception as ex:  # noqa
-            out["derived"] = {"err": type(ex).__name__}
+            return {"outside": True, "rejected": type(ex).__name__}
+        out["outside"] = True
         return out
     if k == "roi":
         ra, rb = case["est"], case["gt"]
-        e, g = mk2d(ra), mk2d(rb)
-        sc = lambda a, b: {"cd": _val(om.CenterDistanceMatching, a, b), "iou2d": _val(om.IOU2dMatching, a, b)}  # noqa
-        out = {"base": sc(e, g), "swap": sc(g, e), "self_e": sc(e, mk2d(ra)), "self_g": sc(mk2d(rb), g)}
+        inside = ra[2] > 0 and ra[3] > 0 and rb[2] > 0 and rb[3] > 0
         try:
-            out["base"]["inter"] = float(e.get_polygon().intersection(g.get_polygon()).area)
+            out = _run_roi(case, om)
         except Exception as ex:  # noqa
-            out["base"]["inter"] = {"err": type(ex).__name__}
-        dx, dy = case["shift"]
-        ra2, rb2 = [ra[0] + dx, ra[1] + dy, ra[2], ra[3]], [rb[0] + dx, rb[1] + dy, rb[2], rb[3]]
-        out["shift"] = sc(mk2d(ra2), mk2d(rb2))
-        out["moved"] = {"est": ra2, "gt": rb2}
-        # ---- purity: the SAME two objects scored again after everything above, and through the result object
-        snap0 = [_snap2d(mk2d(ra)), _snap2d(mk2d(rb))]
-        out["again"] = sc(e, g)
-        out["result"] = _result_scores(e, g, ("cd", "iou2d"))
-        out["again_swap"] = sc(g, e)
-        snap1 = [_snap2d(e), _snap2d(g)]
-        out["roi_changed"] = None if snap0 == snap1 else {"before": snap0, "after": snap1}
+            if inside:
+                raise
+            return {"outside": True, "rejected": type(ex).__name__}  # zero-size ROIs: outside "pairs of integer ROIs" with an area
+        if not inside:
+            out["outside"] = True
         return out
     if k == "pure":
         return _run_pure(case)
     raise ValueError(k)
+
+
+def _run_roi(case, om):
+    ra, rb = case["est"], case["gt"]
+    e, g = mk2d(ra), mk2d(rb)
+    sc = lambda a, b: {"cd": _val(om.CenterDistanceMatching, a, b), "iou2d": _val(om.IOU2dMatching, a, b)}  # noqa
+    out = {"base": sc(e, g), "swap": sc(g, e), "self_e": sc(e, mk2d(ra)), "self_g": sc(mk2d(rb), g)}
+    out["base"]["inter"] = _inter_real(e, g, "get_polygon")
+    dx, dy = case["shift"]
+    ra2, rb2 = [ra[0] + dx, ra[1] + dy, ra[2], ra[3]], [rb[0] + dx, rb[1] + dy, rb[2], rb[3]]
+    e2, g2 = mk2d(ra2), mk2d(rb2)
+    out["shift"] = sc(e2, g2)
+    out["moved"] = {"est": ra2, "gt": rb2}
+    # the ROI centres the library itself reports (public attribute `Roi.center`), of the pair and of the shifted pair
+    cs = [_roi_center(o) for o in (e, g, e2, g2)]
+    out["centers"] = None if any(c is None for c in cs) else {"est": cs[0], "gt": cs[1], "est_shift": cs[2], "gt_shift": cs[3]}
+    # ---- purity: the SAME two objects scored again after everything above, and through the result object
+    out["again"] = sc(e, g)
+    out["result"] = _result_scores(e, g, ("cd", "iou2d"))
+    out["again_swap"] = sc(g, e)
+    return out
 
 
 # --------------------------------------------------------------------------- purity stream (real objects)
@@ -377,11 +438,6 @@ def _result_scores(e, g, which=("cd", "pd", "iou2d", "iou3d")):
         except Exception as ex:  # noqa
             out[k] = {"err": type(ex).__name__}
     return out
-
-
-def _snap2d(o):
-    r = o.roi
-    return [repr(tuple(r.offset)), repr(tuple(r.size)), repr(tuple(r.center)), repr(r.corners.tolist())]
 
 
 def _hex(seq):
@@ -496,6 +552,8 @@ def _mbox(box):
 
 
 def model_requests(case, out):
+    if not isinstance(out, dict) or out.get("unexpected") or "moved" not in out:
+        return []  # nothing of the real code to compare (rejected out-of-quantifier input, or an unexpected exception)
     if case["kind"] == "box":
         mv = out["moved"]
         return [
@@ -517,11 +575,12 @@ def _mval(x):
 
 
 def _cmp_val(name, impl, model, sqrt=False):
-    """impl: float | {'err'}; model: Fraction | {'err'}"""
-    if isinstance(impl, dict) or isinstance(model, dict):
-        if isinstance(impl, dict) and isinstance(model, dict) and impl.get("err") == model.get("err"):
-            return None
-        return f"{name}: impl {impl} vs model {model}"
+    """impl: float | {'err'}; model: Fraction | {'err'}.  Only called for pairs INSIDE the quantifier (positive sizes), where
+    the model is total: a real call that raised is a disagreement whatever its class."""
+    if isinstance(model, dict):
+        return f"{name}: the model has no value on a positive-size pair: {model}"
+    if isinstance(impl, dict):
+        return f"{name}: impl raised {impl.get('err')} vs model {float(model)!r}"
     if impl is None:
         return f"{name}: impl None"
     m = float(model)
@@ -532,18 +591,76 @@ def _cmp_val(name, impl, model, sqrt=False):
     return None if core.close(impl, m, TOL, TOL) else f"{name}: impl {impl!r} vs model {m!r}"
 
 
-def _pd_decided(r, sc):
-    """is the choice of the two nearest GT corners safe to compare? (True / False=skip)"""
+def _cmp_outside(name, impl, model, sqrt=False):
+    """a pair OUTSIDE the quantifier (a zero size): compared only where both sides produced a number; 'raised' on either
+    side (ZeroDivisionError today; object_matching.py carries `TODO: if tiny box dim seen return 0.0 IOU`) is no claim.
+    -> (disagreement | None, ignored?)"""
+    if isinstance(impl, dict) or isinstance(model, dict) or impl is None:
+        return None, True
+    return _cmp_val(name, impl, model, sqrt), False
+
+
+def _side_pairs(keys, slack=1e-7):
+    """index pairs {i, j} of footprint corners that are 'the two nearest to the ego' up to `slack` in distance: every corner
+    outside the pair is at least as far as both of them.  Without a tie this is the one nearest side (for a rectangle the two
+    nearest corners are adjacent).  On a tie (GT symmetric about the ego) every tied choice: the property says "the ground
+    truth's nearest-to-ego side" and leaves the tie open.  (When all four corners tie - GT centred on the ego - the float
+    noise of the unchanged code also selects diagonal pairs, so adjacency is not demanded.)"""
+    d = [math.sqrt(float(k)) for k in keys]
+    out = []
+    for i in range(4):
+        for j in range(i + 1, 4):
+            rest = [d[k] for k in range(4) if k not in (i, j)]
+            if max(d[i], d[j]) <= min(rest) + slack:
+                out.append((i, j))
+    return out
+
+
+def _pd2_candidates(P, Q, slack=1e-7):
+    """squared plane distance for every admissible nearest side of Q (corner lists in corresponding order): mean of the
+    two squared distances between corresponding corners.  The VALUE set does not depend on how the corners are labelled."""
+    keys = [q[0] * q[0] + q[1] * q[1] for q in Q]
+    vals = []
+    for i, j in _side_pairs(keys, slack):
+        vals.append((sum((P[i][t] - Q[i][t]) ** 2 for t in range(2)) + sum((P[j][t] - Q[j][t]) ** 2 for t in range(2))) / 2)
+    return vals
+
+
+def _pd_margin(r):
     ks = [float(core.unq(x)) for x in r["sorted_keys"]]
-    margin = math.sqrt(ks[2]) - math.sqrt(ks[1])
-    if margin >= 1e-7:
-        return True
-    return sorted(r["nearest"]) == sc.get("float_nearest")
+    return math.sqrt(ks[2]) - math.sqrt(ks[1])
+
+
+def _cmp_pd(tag, sc, r):
+    """plane distance against the model.  Decided corner choice (margin >= 1e-7): the model's value.  Tie / near tie: the
+    model's deterministic winner (first index of a stable argsort over the library's CURRENT corner labelling) is one of
+    several outcomes the property admits; any tied nearest side is accepted, computed from the model's exact footprints."""
+    if _pd_margin(r) >= 1e-7:
+        return _cmp_val(f"{tag}.plane_distance", sc["pd"], _mval(r["pd2"]), sqrt=True)
+    if _raised(sc["pd"]) or sc["pd"] is None:
+        return f"{tag}.plane_distance: impl {sc['pd']} on a positive-size pair"
+    P = [(core.unq(p[0]), core.unq(p[1])) for p in r["fp_est"]]
+    Q = [(core.unq(p[0]), core.unq(p[1])) for p in r["fp_gt"]]
+    cands = [math.sqrt(float(v)) for v in _pd2_candidates(P, Q)] + [math.sqrt(float(_mval(r["pd2"])))]
+    if any(core.close(sc["pd"], c, TOL, TOL) for c in cands):
+        return None
+    return f"tie {tag}.plane_distance: impl {sc['pd']!r} is the RMS corner distance of none of the tied nearest sides {sorted(set(cands))}"
 
 
 def compare(case, out, resps):
-    skip = False
+    if out.get("unexpected") or ("err" in out and "base" not in out and "steps" not in out):
+        return None  # no output of the real code to compare (reported by run_check itself)
     if case["kind"] == "box":
+        if out.get("outside"):
+            if "base" not in out:
+                return "skip"  # the library rejects the zero-size box altogether
+            for tag, r in zip(("base", "rot", "rt"), resps):
+                sc = out[tag]
+                for nm, key, mk, sq in (("center_distance", "cd", "cd2", True), ("iou_2d", "iou2d", "iou2d", False), ("iou_3d", "iou3d", "iou3d", False)):
+                    d, _ign = _cmp_outside(f"{tag}.{nm} [zero-size box]", sc[key], _mval(r[mk]), sq)
+                    if d:
+                        return d
+            return "skip"  # counted: a case outside the quantifier
         for tag, r in zip(("base", "rot", "rt"), resps):
             sc = out[tag]
             for d in (
@@ -560,32 +677,61 @@ def compare(case, out, resps):
             # scores were compared with: I(P,Q) = I(Q,P) exactly, hence interSym = interArea on this pair
             if "inter_sym" in r and _mval(r["inter_sym"]) != _mval(r["inter"]):
                 return f"{tag}: interSym {r['inter_sym']} != interArea {r['inter']}"
-            if _pd_decided(r, sc):
-                d = _cmp_val(f"{tag}.plane_distance", sc["pd"], _mval(r["pd2"]), sqrt=True)
+            d = _cmp_pd(tag, sc, r)
+            if d:
+                return d
+        return None
+    if case["kind"] == "roi":
+        if out.get("outside"):
+            if "base" not in out:
+                return "skip"
+            for tag, r in zip(("base", "shift"), resps):
+                for nm, key, mk, sq in (("center_distance", "cd", "cd2", True), ("iou_2d", "iou2d", "iou2d", False)):
+                    d, _ign = _cmp_outside(f"{tag}.{nm} [zero-size ROI]", out[tag][key], _mval(r[mk]), sq)
+                    if d and (key != "cd" or _centers_as_model(out, resps)):
+                        return d
+            return "skip"
+        skip = False
+        floor_centres = _centers_as_model(out, resps)
+        for tag, r in zip(("base", "shift"), resps):
+            sc = out[tag]
+            if floor_centres:
+                d = _cmp_val(f"{tag}.center_distance", sc["cd"], _mval(r["cd2"]), sqrt=True)
                 if d:
                     return d
             else:
+                # the library reports other ROI centres than the model's `offset + size // 2` (e.g. the true centre
+                # offset + size / 2): the text says "ROI centers" and fixes no rounding; the oracle judges the value
                 skip = True
-        return "skip" if skip else None
-    if case["kind"] == "roi":
-        for tag, r in zip(("base", "shift"), resps):
-            sc = out[tag]
-            for d in (
-                _cmp_val(f"{tag}.center_distance", sc["cd"], _mval(r["cd2"]), sqrt=True),
-                _cmp_val(f"{tag}.iou_2d", sc["iou2d"], _mval(r["iou2d"])),
-            ):
-                if d:
-                    return d
+            d = _cmp_val(f"{tag}.iou_2d", sc["iou2d"], _mval(r["iou2d"]))
+            if d:
+                return d
         r = resps[0]
         d = _cmp_val("shapely_area_vs_closed_form", out["base"]["inter"], _mval(r["inter"]))
         if d:
             return d
         if _mval(r["inter"]) != _mval(r["inter_clip"]):
             return f"model: closed form {r['inter']} != clipConvex {r['inter_clip']}"
-        return None
+        return "skip" if skip else None
     if case["kind"] == "pure":
         return None
     return f"unknown kind {case['kind']}"
+
+
+def _centers_as_model(out, resps):
+    """do the ROI centres the library reports coincide with the model's (`Roi.center` of the Lean model: offset + size // 2)?
+    When the attribute cannot be read the model's convention is assumed (the comparison of the distance then decides)."""
+    cs = out.get("centers")
+    if not cs:
+        return True
+    try:
+        for who, tag, r in (("est", "est", resps[0]), ("gt", "gt", resps[0]), ("est", "est_shift", resps[1]), ("gt", "gt_shift", resps[1])):
+            mc = r[f"center_{who}"]
+            if [float(mc[0]), float(mc[1])] != [float(v) for v in cs[tag]]:
+                return False
+    except (KeyError, IndexError, TypeError, ValueError):
+        return True
+    return True
 
 
 # --------------------------------------------------------------------------- oracle = the property text
@@ -600,7 +746,7 @@ def _close(a, b):
 
 def _oracle_box(case, out):
     eb, gb = case["est"], case["gt"]
-    if not (pos_size(eb) and pos_size(gb)):
+    if not (pos_size(eb) and pos_size(gb)) or out.get("outside"):
         return None  # outside the quantifier (positive sizes)
     for tag in ("base", "swap", "self_e", "self_g", "rot", "rt"):
         for k, v in out[tag].items():
@@ -639,20 +785,24 @@ def _oracle_box(case, out):
         for tag, m in (("rotation about ego", ro), ("rotation+translation", rt)):
             if not _close(m[k], v):
                 return f"{k} changed under common {tag}: {v!r} -> {m[k]!r}"
-    # ---- the pair in the MAP frame with the ego pose supplied scores like the pair in the ego frame
+    # ---- the pair after the common rigid motion, expressed in the MAP frame with the ego pose supplied: the ego has moved
+    # with the objects, so this is "both objects rotated together about the ego" + a common translation seen from the map
+    # ("plane distance ... of the ground truth's nearest-to-ego side"; "All scores are unchanged when both objects are
+    # rotated together about the ego (distance and IoU also under any common translation)")
     mf = out.get("mapframe", {})
-    if "err" in mf:
-        return f"scoring the pair in the map frame raised {mf['err']}"
     for k in ("cd", "iou2d", "iou3d"):
-        if k in mf and abs(mf[k] - b[k]) > 1e-6 * max(1.0, abs(b[k])):
-            return f"{k} differs between the ego-frame pair ({b[k]!r}) and the same pair in the map frame with the ego pose supplied ({mf[k]!r})"
+        if k in mf:
+            if not _num(mf[k]):
+                return f"{_SCORE_NAME[k]} of the pair in the map frame (ego pose supplied) is not a finite number: {mf[k]}"
+            if abs(mf[k] - b[k]) > 1e-6 * max(1.0, abs(b[k])):
+                return f"{k} differs between the ego-frame pair ({b[k]!r}) and the same pair in the map frame with the ego pose supplied ({mf[k]!r})"
     # ---- derived objects (deepcopy of a scored object, state replaced) score like fresh ones
     for tag in ("derived", "derived_inplace"):
         dv = out.get(tag, {})
-        if "err" in dv:
-            return f"scoring a derived object raised {dv['err']}"
         for k in ("cd", "pd", "iou2d", "iou3d"):
-            if k in dv and _num(dv[k]) and _num(rt[k]) and not _close(dv[k], rt[k]):
+            if k in dv and not _num(dv[k]):
+                return f"{_SCORE_NAME[k]} of objects derived from scored ones by deepcopy + new state is not a finite number: {dv[k]}"
+            if k in dv and _num(rt[k]) and not _close(dv[k], rt[k]) and (k != "pd" or _pd_margin_of(fp_rational(out["moved"]["rt"]["gt"])) >= 1e-7):
                 return f"{k} of objects derived from scored ones by deepcopy + new state is {dv[k]!r}, freshly built objects give {rt[k]!r}"
     if separated(P, Q) and (abs(b["iou2d"]) > TOL or abs(b["iou3d"]) > TOL):
         return f"disjoint footprints but iou2d={b['iou2d']!r}, iou3d={b['iou3d']!r}"
@@ -665,36 +815,82 @@ def _oracle_box(case, out):
         return f"plane distance negative: {b['pd']!r}"
     if abs(se["pd"]) > TOL or abs(sg["pd"]) > TOL:
         return f"plane distance of identical boxes not 0: {se['pd']!r}, {sg['pd']!r}"
-    d2 = [p[0] * p[0] + p[1] * p[1] for p in Q]
-    order = sorted(range(4), key=lambda i: d2[i])
-    margin = math.sqrt(float(d2[order[2]])) - math.sqrt(float(d2[order[1]]))
-    if margin >= 1e-7:
-        i, j = order[0], order[1]
-        ms = (sum((P[i][t] - Q[i][t]) ** 2 for t in range(2)) + sum((P[j][t] - Q[j][t]) ** 2 for t in range(2))) / 2
-        ref = math.sqrt(float(ms))
-        if not _close(b["pd"], ref):
-            return f"plane distance {b['pd']!r} != RMS corner distance over the GT's nearest side {ref!r} (corners {i},{j})"
+    # "equals the RMS distance between the corresponding footprint corners of the ground truth's nearest-to-ego side": on an
+    # exact (or float-undecidable, < 1e-7) tie of the corner ranking ANY tied nearest side is such a side
+    cands = [math.sqrt(float(v)) for v in _pd2_candidates(P, Q)]
+    if cands and not any(_close(b["pd"], c) for c in cands):
+        return (f"plane distance {b['pd']!r} != RMS corner distance over the GT's nearest side "
+                f"{cands[0]!r}" + (f" (nor over any of the tied nearest sides {sorted(set(cands))})" if len(cands) > 1 else ""))
+    if _pd_margin_of(Q) >= 1e-7:
         if not _close(ro["pd"], b["pd"]):
             return f"plane distance changed under common rotation about ego: {b['pd']!r} -> {ro['pd']!r}"
-        if "pd" in mf and abs(mf["pd"] - b["pd"]) > 1e-6 * max(1.0, abs(b["pd"])):
-            return f"plane distance differs between the ego-frame pair ({b['pd']!r}) and the same pair in the map frame with the ego pose supplied ({mf['pd']!r})"
+        if "pd" in mf:
+            if not _num(mf["pd"]):
+                return f"plane distance of the pair in the map frame (ego pose supplied) is not a finite number: {mf['pd']}"
+            if abs(mf["pd"] - b["pd"]) > 1e-6 * max(1.0, abs(b["pd"])):
+                return f"plane distance differs between the ego-frame pair ({b['pd']!r}) and the same pair in the map frame with the ego pose supplied ({mf['pd']!r})"
+    else:
+        # tie: the moved renderings may pick another tied side; each must still be the RMS over SOME tied nearest side
+        for what, v in (("after the common rotation about the ego", ro["pd"]), ("in the map frame with the ego pose supplied", mf.get("pd"))):
+            if v is None:
+                continue
+            if not _num(v):
+                return f"plane distance {what} is not a finite number: {v}"
+            if cands and not any(abs(v - c) <= 1e-6 * max(1.0, c) for c in cands):
+                return f"plane distance {what} is {v!r}: the RMS corner distance of none of the GT's tied nearest sides {sorted(set(cands))}"
     return None
+
+
+def _pd_margin_of(Q):
+    d = sorted(math.sqrt(float(p[0] * p[0] + p[1] * p[1])) for p in Q)
+    return d[2] - d[1]
+
+
+def _roi_inside(case):
+    ra, rb = case["est"], case["gt"]
+    return ra[2] > 0 and ra[3] > 0 and rb[2] > 0 and rb[3] > 0
+
+
+def _roi_center_refs(case, out):
+    """the admissible readings of "ROI centers" for the pair and the shifted pair -> list of (reference distance of the
+    pair, of the shifted pair), or a failure text.
+    The text says "Euclidean distance between ... ROI centers" and fixes no rounding: the centre of an integer ROI is its
+    true centre offset + size/2, or - what the library documents today (`Roi.center`, int pixels) - a pixel within half a
+    pixel of it.  The library's OWN public `Roi.center` is read; it must be such a centre and must move with the ROI."""
+    ra, rb = case["est"], case["gt"]
+    dx, dy = case["shift"]
+    true = lambda r: (Fr(r[0]) + Fr(r[2], 2), Fr(r[1]) + Fr(r[3], 2))  # noqa
+    dist = lambda a, b: math.sqrt(float((Fr(a[0]) - Fr(b[0])) ** 2 + (Fr(a[1]) - Fr(b[1])) ** 2))  # noqa
+    cs = out.get("centers")
+    if cs:
+        for who, r in (("est", ra), ("gt", rb)):
+            c, t = cs[who], true(r)
+            if any(abs(Fr(c[i]) - t[i]) > Fr(1, 2) for i in range(2)):
+                return None, f"Roi.center {c} of the ROI {r} is not its centre (true centre {[float(v) for v in t]}, more than half a pixel off)"
+            c2 = cs[who + "_shift"]
+            if [Fr(c2[0]) - Fr(c[0]), Fr(c2[1]) - Fr(c[1])] != [dx, dy]:
+                return None, (f"Roi.center does not move with the ROI: {r} has centre {c}, the same ROI shifted by {[dx, dy]} has centre {c2}")
+        return [(dist(cs["est"], cs["gt"]), dist(cs["est_shift"], cs["gt_shift"]))], None
+    # `Roi.center` not readable in this form: either documented reading is accepted
+    fl = lambda r: (r[0] + r[2] // 2, r[1] + r[3] // 2)  # noqa
+    return [(dist(fl(ra), fl(rb)),) * 2, (dist(true(ra), true(rb)),) * 2], None
 
 
 def _oracle_roi(case, out):
     ra, rb = case["est"], case["gt"]
-    if not (ra[2] > 0 and ra[3] > 0 and rb[2] > 0 and rb[3] > 0):
+    if not _roi_inside(case) or out.get("outside"):
         return None
     for tag in ("base", "swap", "self_e", "self_g", "shift"):
         for k in ("cd", "iou2d"):
             if not _num(out[tag][k]):
                 return f"{tag}.{k} is not a finite number: {out[tag][k]}"
     b, sw, se, sg, sh = (out[t] for t in ("base", "swap", "self_e", "self_g", "shift"))
-    ca = (ra[0] + ra[2] // 2, ra[1] + ra[3] // 2)
-    cb = (rb[0] + rb[2] // 2, rb[1] + rb[3] // 2)
-    ref = math.sqrt((ca[0] - cb[0]) ** 2 + (ca[1] - cb[1]) ** 2)
-    if not _close(b["cd"], ref):
-        return f"2-D center distance {b['cd']!r} != distance of ROI centers {ref!r}"
+    refs, bad = _roi_center_refs(case, out)
+    if bad:
+        return bad
+    if not any(_close(b["cd"], r0) and _close(sh["cd"], r1) for r0, r1 in refs):
+        return (f"2-D center distance {b['cd']!r} (shifted pair: {sh['cd']!r}) != distance of the ROI centers "
+                f"{' / '.join(repr(r0) for r0, _ in refs)}")
     if not _close(sw["cd"], b["cd"]):
         return f"2-D center distance not symmetric {b['cd']!r} vs {sw['cd']!r}"
     if abs(se["cd"]) > TOL or abs(sg["cd"]) > TOL:
@@ -723,8 +919,7 @@ def _oracle_roi(case, out):
 
 def _oracle_roi_pure(case, out):
     """the same two ROI objects scored again (after the swapped / self scores) and through the result object"""
-    ra, rb = case["est"], case["gt"]
-    if not (ra[2] > 0 and ra[3] > 0 and rb[2] > 0 and rb[3] > 0) or "again" not in out:
+    if not _roi_inside(case) or out.get("outside") or "again" not in out:
         return None
     b = out["base"]
     for tag, what in (("again", "scored a second time"), ("result", "scored through DynamicObjectWithPerceptionResult"),
@@ -735,8 +930,8 @@ def _oracle_roi_pure(case, out):
                 return f"{nm} of the same two objects {what} is not a finite number: {v}"
             if not _close(v, b[k]):
                 return f"{nm} of the same two objects {what} is {v!r}, the first evaluation gave {b[k]!r}"
-    if out.get("roi_changed"):
-        return f"scoring modified its input ROI objects: {out['roi_changed']}"
+    # (that scoring leaves its input objects bit-identical is NOT a clause of C06: a modification that matters shows in the
+    # repeated / swapped evaluations above, one that does not is no violation of the statement)
     return None
 
 
@@ -749,12 +944,8 @@ def _truth(eb, gb):
     h = z_overlap(eb, gb)
     V1, V2 = A1 * Fr(eb["size"][2]), A2 * Fr(gb["size"][2])
     t = {"cd": cd, "iou2d": float(I / (A1 + A2 - I)), "iou3d": float((I * h) / (V1 + V2 - I * h)), "pd": None}
-    d2 = [p[0] * p[0] + p[1] * p[1] for p in Q]
-    order = sorted(range(4), key=lambda i: d2[i])
-    if math.sqrt(float(d2[order[2]])) - math.sqrt(float(d2[order[1]])) >= 1e-7:
-        i, j = order[0], order[1]
-        ms = (sum((P[i][k] - Q[i][k]) ** 2 for k in range(2)) + sum((P[j][k] - Q[j][k]) ** 2 for k in range(2))) / 2
-        t["pd"] = math.sqrt(float(ms))
+    if _pd_margin_of(Q) >= 1e-7:  # (ties: the tied side is not determined by the text; the repeated-evaluation clauses still apply)
+        t["pd"] = math.sqrt(float(_pd2_candidates(P, Q)[0]))
     return t
 
 
@@ -773,7 +964,7 @@ _SCORE_NAME = {"cd": "center distance", "pd": "plane distance", "iou2d": "BEV Io
 def _oracle_pure(case, out):
     """Scores are functions of the two boxes only: whatever container holds the centre, however often and in whatever
     order the scores of the pair were evaluated before, every score equals (a) the score of freshly built
-    tuple-position objects and (b) the exact value the property text prescribes; and scoring leaves the boxes alone."""
+    tuple-position objects and (b) the exact value the property text prescribes."""
     eb, gb = case["est"], case["gt"]
     if not _pure_in_domain(case):
         return None
@@ -796,6 +987,10 @@ def _oracle_pure(case, out):
             if k not in vals:
                 continue
             v, ref, nm = vals[k], refs[k], _SCORE_NAME[k]
+            if _raised(v) and case["container"] in ("int", "list"):
+                # the documented type of a position is a tuple of floats; a library that REJECTS an int array / a list is
+                # within its contract (no claim); one that accepts it must score it right (clauses below)
+                continue
             if not _num(v):
                 return f"{nm} is not a finite number: {v} {ctx}"
             if _num(ref) and not _close(v, ref):
@@ -812,16 +1007,18 @@ def _oracle_pure(case, out):
             if k != "pd" and (k, not swapped) in seen and not _close(v, seen[(k, not swapped)]):
                 return f"{nm} not symmetric: {v!r} vs {seen[(k, not swapped)]!r} {ctx}"
         hist.append(op)
-    m = out.get("mutated")
-    if m:
-        return (f"scoring modified its input: {m['who']}.state.{m['what']} was {m['before']} and is {m['after']} after step {m['step']} "
-                f"({m['op']}) of {' '.join(case['ops'])} [centres held as {case['container']} ({'/'.join(out['postype'])})]")
+    # `out["mutated"]` (the objects' position / orientation / size are not bit-identical after scoring) is NOT a clause of
+    # C06 - the statement is about score VALUES.  A modification that matters makes a later / repeated / swapped evaluation
+    # wrong and is reported by the clauses above with the step sequence; it is kept in the histogram (pure:inputs-MUTATED).
     return None
 
 
 def oracle(case, out):
-    if "err" in out:
-        return f"real code raised {out.get('err')}: {out.get('trace', '')[-300:]}"
+    if not isinstance(out, dict) or out.get("unexpected") or ("err" in out and "base" not in out and "steps" not in out):
+        # an exception that escaped run_impl (reported by run_check itself under the current convention)
+        return f"real code raised {out.get('err')}: {str(out.get('trace', ''))[-300:]}" if isinstance(out, dict) else None
+    if out.get("outside") and "base" not in out:
+        return None  # the library rejected an out-of-quantifier (zero-size) input
     if case["kind"] == "box":
         return _oracle_box(case, out)
     if case["kind"] == "roi":
@@ -1098,10 +1295,19 @@ def extra_evidence():
                                     f"sizes in {WINDOW_SIZE}^2 (quick tier: a seeded sample of 1500 of them)"}
 
 
+def _step_vals(st):
+    v = st["v"]
+    return list(v.values()) if isinstance(v, dict) and "err" not in v else [v]
+
+
 def branches(case, out):
     br = [f"{case['kind']}:{case.get('family')}"]
-    if "err" in out:
+    if not isinstance(out, dict) or out.get("unexpected") or ("err" in out and "base" not in out and "steps" not in out):
         return br + ["impl-exception"]
+    for u in out.get("unobservable", []):
+        br.append("unobservable:" + u)
+    if out.get("outside") and "base" not in out:
+        return br + ["trivial", "skipped:outside-quantifier:rejected-by-the-library"]
     if case["kind"] == "pure":
         ops = case["ops"]
         if not _pure_in_domain(case):
@@ -1116,12 +1322,14 @@ def branches(case, out):
         if ops and ops[0].rstrip("~") != "cd" and not ops[0].startswith("R"):
             br.append("pure:first-score-not-cd")
         br.append("pure:inputs-" + ("MUTATED" if out.get("mutated") else "unchanged"))
+        if case["container"] in ("int", "list") and any(_raised(x) for st in out["steps"] for x in _step_vals(st)):
+            br.append("skipped:pure:container-rejected-by-the-library")
         return br
     b = out["base"]
     if case["kind"] == "box":
         if not (pos_size(case["est"]) and pos_size(case["gt"])):
-            br.append("trivial")
-            br.append("box:zero-division" if isinstance(b["iou2d"], dict) or isinstance(b["iou3d"], dict) else "box:zero-size-no-error")
+            br += ["trivial", "skipped:outside-quantifier:zero-size-box"]
+            br.append("box:zero-size:raises" if _raised(b["iou2d"]) or _raised(b["iou3d"]) else "box:zero-size:returns")
             return br
         i2, i3 = b["iou2d"], b["iou3d"]
         if _num(i2):
@@ -1140,6 +1348,9 @@ def branches(case, out):
         br.append("pd:nearest=" + "".join(map(str, sorted(order[:2]))))
         if d2[order[1]] == d2[order[2]]:
             br.append("pd:exact-tie")
+            br.append(f"pd:tie:admissible-sides={len(_side_pairs(d2))}")
+            if len({round(math.sqrt(float(v)), 9) for v in _pd2_candidates(fp_rational(case["est"]), Q)}) > 1:
+                br.append("pd:tie:sides-differ-in-value")
         P = fp_rational(case["est"])
         cr = Q[order[0]][0] * Q[order[1]][1] - Q[order[0]][1] * Q[order[1]][0]
         br.append("pd:left-right=" + ("neg" if cr < 0 else "zero" if cr == 0 else "pos"))
@@ -1147,9 +1358,11 @@ def branches(case, out):
     else:
         ra, rb = case["est"], case["gt"]
         if not (ra[2] > 0 and ra[3] > 0 and rb[2] > 0 and rb[3] > 0):
-            br.append("trivial")
-            br.append("roi:zero-division" if isinstance(b["iou2d"], dict) else "roi:zero-size-no-error")
+            br += ["trivial", "skipped:outside-quantifier:zero-size-roi"]
+            br.append("roi:zero-size:raises" if _raised(b["iou2d"]) else "roi:zero-size:returns")
             return br
+        if not out.get("centers"):
+            br.append("unobservable:Roi.center")
         i2 = b["iou2d"]
         if _num(i2):
             br.append("roi-iou:" + ("zero" if i2 <= TOL else "one" if i2 >= 1 - TOL else "partial"))
